@@ -12,7 +12,7 @@ VARIABLES kind, nts, pos, vi
 vars == <<kind, nts, pos, vi>>
 
 Units == << C1, CJ1, <<Q(3,5), Q(4,5)>>, <<Q(-5,13), Q(12,13)>>, <<Q(8,17), Q(-15,17)>>, CNeg(C1) >>
-Mags == << Q(2,1), Q(1,3), Q(5,2) >>
+Mags == << Q(2,1), Q(1,3), R0 >>          \* including the number zero in every notation
 Reals == << Q(3,1), Q(-2,1), Q(1,4), R0 >>
 
 \* value of field number j of the entry under test, for value index vi
